@@ -11,16 +11,10 @@ from typing import Any
 def _make_key(method):
     method = method.func if isinstance(method, partial) else method
     method = method.fget if isinstance(method, property) else method
-    if isinstance(method, MethodType):
-        return hash(
-            (
-                method.__qualname__,
-                method.__self__.__class__.__name__,
-                method.__code__.co_varnames,
-            )
-        )
-    else:
-        return hash((method.__qualname__, method.__code__.co_varnames))
+    # The code object identifies the function itself: names are not unique (two classes may
+    # reuse the same class, method and variable names with different parameter kinds, or one
+    # may be a coroutine function). Bound methods and plain functions have distinct signatures.
+    return (method.__code__, isinstance(method, MethodType))
 
 
 def signature_cache(user_function):
